@@ -31,6 +31,7 @@ type randParams struct {
 	PDup      float64 `json:"pDup"`
 	PReject   float64 `json:"pReject"` // a delivery is first attempted with one change the validator refuses
 	History   int     `json:"history"` // history trees per observer at the end
+	Signed    bool    `json:"signed"`  // random load runs: signed trees, own changes through AddContent
 }
 
 type traceState struct {
